@@ -32,6 +32,7 @@ def pipeline(ctx, comp, replay=None, parts=("tlc", "random"), mc=None, env=None)
         with open(rnd, "w") as f:
             f.writelines(l for l in open(allr) if '"comp":"%s"' % comp in l)
         files = [x for x in [("tlc", stim), ("random", rnd)] if x[0] in parts]
+        _census(ctx, comp, rnd)
     for name, prof, hxp, sf in kit.profile_runs(ctx, "hx_stream", files, replay):
         tr = os.path.join(ctx.work, "%s_trace_%s_%s.ndjson" % (comp, name, prof))
         r = ctx.run_stimuli(hxp, sf, tr, comp)
@@ -43,6 +44,48 @@ def pipeline(ctx, comp, replay=None, parts=("tlc", "random"), mc=None, env=None)
         heap += res["heap"]
         os.remove(tr)
     return rej, heap
+
+
+def _census(ctx, comp, rnd):
+    """Vacuity guard: the random stimuli must contain the scenario kinds the later rounds added (a generator change
+    that silently stops producing one of them is a tool error, not a quieter check)."""
+    import json
+    have = set()
+    for line in open(rnd):
+        ex = json.loads(line)
+        evs = [e["ev"] for e in ex[1:]]
+        if comp == "fork":
+            cap, pa, pb = ex[0]["cfg"]["cap"], 0, 0
+            alive = {"A": True, "B": True}
+            for e in ex[1:]:
+                if e["ev"] == "next":
+                    pa, pb = (pa + 1, pb) if e["a"]["branch"] == "A" else (pa, pb + 1)
+                    if abs(pa - pb) > cap and all(alive.values()):
+                        have.add("overrun with both branches alive")
+                elif e["ev"] == "drop":
+                    alive[e["a"]["branch"]] = False
+                    have.add("drop")
+                elif e["ev"] == "resplit":
+                    alive = {"A": True, "B": True}
+                    have.add("resplit to " + e["a"]["to"])
+            if ex[0]["cfg"].get("srclen", -1) >= 0:
+                have.add("finite source")
+        elif comp == "bus":
+            have |= {k for k in ("drop_bus", "send", "drop") if k in evs}
+            run = best = 0
+            for e in ex[1:]:
+                run = run + 1 if e["ev"] == "next" and e["a"]["key"] == 0 else 0
+                best = max(best, run)
+            if best > 4096:
+                have.add("lag beyond 4096")
+        elif comp == "buffered":
+            have |= {k for k in ("clone", "nf_fold", "nf_for_each", "nf_count", "nf_last", "next_frames") if k in evs}
+    want = {"fork": {"overrun with both branches alive", "drop", "resplit to ref", "resplit to rc", "resplit to clone", "finite source"},
+            "bus": {"drop_bus", "send", "drop", "lag beyond 4096"},
+            "buffered": {"clone", "nf_fold", "nf_for_each", "nf_count", "nf_last", "next_frames"}}[comp]
+    if want - have:
+        raise kit.ToolError("random %s stimuli lack: %s" % (comp, ", ".join(sorted(want - have))))
+    ctx.extra.setdefault("random_scenarios_present", {})[comp] = sorted(have)
 
 
 def apalache(ctx, module, inv="IndInv"):
